@@ -262,10 +262,10 @@ theorem togOp_OK (o : Op) (l : Leg) (h : OpOK o) : OpOK (togOp o l) := by
   exact ⟨by simp only [togOp]; rw [this.1]; exact h1, by simp only [togOp]; rw [this.2]; exact h2, h3⟩
 
 theorem togOp_togOp (o : Op) (l : Leg) : togOp (togOp o l) l = o := by
-  simp only [togOp, flipIO_flipIO]
+  simp only [togOp, Prod.mk.eta, flipIO_flipIO]
 
 theorem togOp_comm (o : Op) (a b : Leg) : togOp (togOp o a) b = togOp (togOp o b) a := by
-  simp only [togOp, flipIO_comm (o.ins, o.outs) a b]
+  simp only [togOp, Prod.mk.eta, flipIO_comm (o.ins, o.outs) a b]
 
 /-- **P2**: with output leg `r` toggled the op writes the toggled value at `vars[r]` -/
 theorem applyOp_tog_out (st m : List Bool) (o : Op) (r : Nat) (hok : OpOK o) (hr : r < o.vars.length)
@@ -368,8 +368,7 @@ theorem link_inner {st fin : List Bool} {V : Slots} (h : propagate st V = some f
       (applyOp_tog_out _ _ o1 r1 ok1 hr1 q2) ?_
     rw [propagate_modify_free _ _ _ _ (free_mid V _ a b hfree), q3]
     rfl
-  refine propagate_at_of (by rw [List.length_set]; exact hbl) hA ?_ ?_
-  · exact m4
+  refine propagate_at_of (m' := m4) (by rw [List.length_set]; exact hbl) hA ?_ ?_
   · have := applyOp_tog_in m3 m4 o2 r2 ok2 hr2 p2
     rw [hv] at this
     exact this
@@ -416,11 +415,688 @@ theorem link_self {st fin : List Bool} {V : Slots} (h : propagate st V = some fi
       = some (fin.modify o.vars[r] not) := by
   have hal : a < V.length := (List.getElem?_eq_some_iff.mp h1).1
   obtain ⟨m1, m2, p1, p2, p3⟩ := propagate_at h a o h1
-  refine propagate_at_of (m := m1.modify o.vars[r] not) hal ?_ ?_ ?_
-  · exact m2.modify o.vars[r] not
+  refine propagate_at_of (m := m1.modify o.vars[r] not) (m' := m2.modify o.vars[r] not) hal ?_ ?_ ?_
   · rw [propagate_modify_free _ _ _ _ (free_take V _ a hfa), p1]; rfl
   · exact applyOp_tog_out _ _ (togOp o ⟨r, false⟩) r (togOp_OK _ _ ok) hr
       (applyOp_tog_in m1 m2 o r ok hr p2)
   · rw [propagate_modify_free _ _ _ _ (free_drop V _ a hfb), p3]; rfl
+
+/-! ### toggling a leg inside the string -/
+
+def togAt (s : Slots) (x : Nat × Leg) : Slots := s.modify x.1 (Option.map (fun o => togOp o x.2))
+
+theorem togAt_length (s : Slots) (x : Nat × Leg) : (togAt s x).length = s.length := by
+  simp [togAt]
+
+theorem togAt_getElem? (s : Slots) (x : Nat × Leg) (j : Nat) :
+    (togAt s x)[j]? = if x.1 = j then (s[j]?).map (Option.map (fun o => togOp o x.2)) else s[j]? := by
+  unfold togAt
+  rw [List.getElem?_modify]
+  by_cases h : x.1 = j <;> simp [h]
+
+theorem togAt_togAt (s : Slots) (x : Nat × Leg) : togAt (togAt s x) x = s := by
+  unfold togAt
+  rw [List.modify_modify_eq]
+  have : (Option.map (fun o => togOp o x.2) ∘ Option.map (fun o => togOp o x.2)) = id := by
+    funext o; cases o <;> simp [togOp_togOp]
+  rw [this, List.modify_id]
+
+theorem togAt_comm (s : Slots) (x y : Nat × Leg) : togAt (togAt s x) y = togAt (togAt s y) x := by
+  unfold togAt
+  by_cases h : x.1 = y.1
+  · rw [h, List.modify_modify_eq, List.modify_modify_eq]
+    congr 1
+    funext o; cases o <;> simp [togOp_comm]
+  · exact List.modify_modify_ne _ _ _ h
+
+theorem togAt_eq_set (s : Slots) (x : Nat × Leg) (o : Op) (h : s[x.1]? = some (some o)) :
+    togAt s x = s.set x.1 (some (togOp o x.2)) := by
+  unfold togAt
+  rw [List.modify_eq_set_getElem?, h]
+  rfl
+
+/-- what `togAt` leaves alone: which variables sit at which position -/
+theorem togAt_some (s : Slots) (x : Nat × Leg) (j : Nat) (o : Op) (h : (togAt s x)[j]? = some (some o)) :
+    ∃ o0, s[j]? = some (some o0) ∧ o.vars = o0.vars ∧ (OpOK o0 → OpOK o) := by
+  rw [togAt_getElem?] at h
+  split at h
+  · cases hs : s[j]? with
+    | none => rw [hs] at h; cases h
+    | some y =>
+      cases y with
+      | none => rw [hs] at h; cases h
+      | some o0 =>
+        rw [hs] at h
+        simp only [Option.map_some, Option.some.injEq] at h
+        subst h
+        exact ⟨o0, rfl, rfl, togOp_OK _ _⟩
+  · exact ⟨o, h, rfl, id⟩
+
+theorem occV_togAt (s : Slots) (x : Nat × Leg) (v : Nat) : occV (togAt s x) v = occV s v := by
+  unfold occV
+  rw [togAt_length]
+  apply List.filterMap_congr
+  intro p _
+  rw [togAt_getElem?]
+  by_cases hx : x.1 = p
+  · rw [if_pos hx]
+    cases s[p]? with
+    | none => rfl
+    | some y =>
+      cases y with
+      | none => rfl
+      | some o => rfl
+  · rw [if_neg hx]
+
+/-! ### the navigation getters, read as statements about positions -/
+
+theorem indexOfVar_some {o : Op} {v r : Nat} (h : o.indexOfVar v = some r) :
+    ∃ hr : r < o.vars.length, o.vars[r] = v := by
+  unfold Op.indexOfVar at h
+  simp only at h
+  split at h
+  · rename_i hlt
+    injection h with h; subst h
+    exact ⟨hlt, List.getElem_idxOf hlt⟩
+  · cases h
+
+theorem indexOfVar_of_mem {o : Op} {v : Nat} (h : v ∈ o.vars) : ∃ r, o.indexOfVar v = some r := by
+  unfold Op.indexOfVar
+  simp only
+  rw [if_pos (List.idxOf_lt_length_of_mem h)]
+  exact ⟨_, rfl⟩
+
+theorem indexOfVar_getElem {o : Op} (hn : o.vars.Nodup) (r : Nat) (hr : r < o.vars.length) :
+    o.indexOfVar o.vars[r] = some r := by
+  unfold Op.indexOfVar
+  simp only
+  rw [hn.idxOf_getElem r hr, if_pos hr]
+
+theorem mem_occV (s : Slots) (v q r : Nat) :
+    (q, r) ∈ occV s v ↔ ∃ o, s[q]? = some (some o) ∧ o.indexOfVar v = some r := by
+  unfold occV
+  rw [List.mem_filterMap]
+  constructor
+  · rintro ⟨p, _, hp⟩
+    cases hs : s[p]? with
+    | none => rw [hs] at hp; cases hp
+    | some y =>
+      cases y with
+      | none => rw [hs] at hp; cases hp
+      | some o =>
+        rw [hs] at hp
+        simp only [Option.map_eq_some_iff, Prod.mk.injEq] at hp
+        obtain ⟨r', hr', rfl, rfl⟩ := hp
+        exact ⟨o, hs, hr'⟩
+  · rintro ⟨o, ho, hr⟩
+    refine ⟨q, List.mem_range.mpr (List.getElem?_eq_some_iff.mp ho).1, ?_⟩
+    rw [ho]; simp [hr]
+
+theorem occV_sorted (s : Slots) (v : Nat) : (occV s v).Pairwise (fun a b => a.1 < b.1) := by
+  unfold occV
+  refine List.Pairwise.filterMap _ ?_ List.pairwise_lt_range
+  intro a a' haa b hb b' hb'
+  have e1 : b.1 = a := by
+    cases hs : s[a]? with
+    | none => rw [hs] at hb; cases hb
+    | some y =>
+      cases y with
+      | none => rw [hs] at hb; cases hb
+      | some o =>
+        rw [hs] at hb
+        simp only [Option.map_eq_some_iff] at hb
+        obtain ⟨_, _, rfl⟩ := hb; rfl
+  have e2 : b'.1 = a' := by
+    cases hs : s[a']? with
+    | none => rw [hs] at hb'; cases hb'
+    | some y =>
+      cases y with
+      | none => rw [hs] at hb'; cases hb'
+      | some o =>
+        rw [hs] at hb'
+        simp only [Option.map_eq_some_iff] at hb'
+        obtain ⟨_, _, rfl⟩ := hb'; rfl
+  rw [e1, e2]; exact haa
+
+/-- an op acting on `v` shows up in `occV` -/
+theorem occV_of_touch (s : Slots) (v j : Nat) (o : Op) (h : s[j]? = some (some o)) (hv : v ∈ o.vars) :
+    ∃ r, (j, r) ∈ occV s v := by
+  obtain ⟨r, hr⟩ := indexOfVar_of_mem hv
+  exact ⟨r, (mem_occV s v j r).mpr ⟨o, h, hr⟩⟩
+
+theorem nextForVar_some {s : Slots} {v p q r : Nat} (h : nextForVar s v p = some (q, r)) :
+    p < q ∧ (∃ o, s[q]? = some (some o) ∧ o.indexOfVar v = some r) ∧ FreeIn s v (p + 1) q := by
+  unfold nextForVar at h
+  obtain ⟨hp, as, bs, heq, has⟩ := List.find?_eq_some_iff_append.mp h
+  have hpq : p < q := by simpa using hp
+  have hmem : (q, r) ∈ occV s v := by rw [heq]; simp
+  refine ⟨hpq, (mem_occV s v q r).mp hmem, ?_⟩
+  intro j o hj1 hj2 ho hv
+  obtain ⟨r', hr'⟩ := occV_of_touch s v j o ho hv
+  have hsorted := occV_sorted s v
+  rw [heq] at hr' hsorted
+  rcases List.mem_append.mp hr' with h1 | h1
+  · have := has _ h1
+    simp at this
+    omega
+  · rcases List.mem_cons.mp h1 with h2 | h2
+    · injection h2 with h2 _; omega
+    · have := (List.pairwise_cons.mp (List.pairwise_append.mp hsorted).2.1).1 _ h2
+      simp at this
+      omega
+
+theorem nextForVar_none {s : Slots} {v p : Nat} (h : nextForVar s v p = none) :
+    FreeIn s v (p + 1) s.length := by
+  unfold nextForVar at h
+  rw [List.find?_eq_none] at h
+  intro j o hj1 _ ho hv
+  obtain ⟨r', hr'⟩ := occV_of_touch s v j o ho hv
+  have := h _ hr'
+  simp at this
+  omega
+
+theorem prevForVar_some {s : Slots} {v p q r : Nat} (h : prevForVar s v p = some (q, r)) :
+    q < p ∧ (∃ o, s[q]? = some (some o) ∧ o.indexOfVar v = some r) ∧ FreeIn s v (q + 1) p := by
+  unfold prevForVar at h
+  obtain ⟨hp, as, bs, heq, has⟩ := List.find?_eq_some_iff_append.mp h
+  have hpq : q < p := by simpa using hp
+  have hmem : (q, r) ∈ occV s v := by
+    rw [← List.mem_reverse, heq]; simp
+  refine ⟨hpq, (mem_occV s v q r).mp hmem, ?_⟩
+  intro j o hj1 hj2 ho hv
+  obtain ⟨r', hr'⟩ := occV_of_touch s v j o ho hv
+  have hsorted := List.pairwise_reverse.mpr (occV_sorted s v)
+  rw [← List.mem_reverse] at hr'
+  rw [heq] at hr' hsorted
+  rcases List.mem_append.mp hr' with h1 | h1
+  · have := has _ h1
+    simp at this
+    omega
+  · rcases List.mem_cons.mp h1 with h2 | h2
+    · injection h2 with h2 _; omega
+    · have := (List.pairwise_cons.mp (List.pairwise_append.mp hsorted).2.1).1 _ h2
+      simp at this
+      omega
+
+theorem prevForVar_none {s : Slots} {v p : Nat} (h : prevForVar s v p = none) :
+    FreeIn s v 0 p := by
+  unfold prevForVar at h
+  rw [List.find?_eq_none] at h
+  intro j o _ hj2 ho hv
+  obtain ⟨r', hr'⟩ := occV_of_touch s v j o ho hv
+  have := h _ (List.mem_reverse.mpr hr')
+  simp at this
+  omega
+
+theorem firstForVar_some {s : Slots} {v q r : Nat} (h : firstForVar s v = some (q, r)) :
+    (∃ o, s[q]? = some (some o) ∧ o.indexOfVar v = some r) ∧ FreeIn s v 0 q := by
+  unfold firstForVar at h
+  obtain ⟨ys, heq⟩ := List.head?_eq_some_iff.mp h
+  have hmem : (q, r) ∈ occV s v := by rw [heq]; simp
+  refine ⟨(mem_occV s v q r).mp hmem, ?_⟩
+  intro j o _ hj2 ho hv
+  obtain ⟨r', hr'⟩ := occV_of_touch s v j o ho hv
+  have hsorted := occV_sorted s v
+  rw [heq] at hr' hsorted
+  rcases List.mem_cons.mp hr' with h2 | h2
+  · injection h2 with h2 _; omega
+  · have := (List.pairwise_cons.mp hsorted).1 _ h2
+    simp at this
+    omega
+
+theorem lastForVar_some {s : Slots} {v q r : Nat} (h : lastForVar s v = some (q, r)) :
+    (∃ o, s[q]? = some (some o) ∧ o.indexOfVar v = some r) ∧ FreeIn s v (q + 1) s.length := by
+  unfold lastForVar at h
+  obtain ⟨ys, heq⟩ := List.getLast?_eq_some_iff.mp h
+  have hmem : (q, r) ∈ occV s v := by rw [heq]; simp
+  refine ⟨(mem_occV s v q r).mp hmem, ?_⟩
+  intro j o hj1 _ ho hv
+  obtain ⟨r', hr'⟩ := occV_of_touch s v j o ho hv
+  have hsorted := occV_sorted s v
+  rw [heq] at hr' hsorted
+  rcases List.mem_append.mp hr' with h1 | h1
+  · have := (List.pairwise_append.mp hsorted).2.2 _ h1 (q, r) (by simp)
+    simp at this
+    omega
+  · simp at h1
+    omega
+
+/-! ### the link lemma in the form the walk uses it -/
+
+def SlotsOK (V : Slots) : Prop := ∀ (j : Nat) (o : Op), V[j]? = some (some o) → OpOK o
+
+/-- value of one leg -/
+def legVal (o : Op) (l : Leg) : Bool :=
+  if l.out then o.outs.getD l.rel false else o.ins.getD l.rel false
+
+theorem togAt2_ne (V : Slots) (a b : Nat) (la lb : Leg) (oa ob : Op) (hab : a ≠ b)
+    (ha : V[a]? = some (some oa)) (hb : V[b]? = some (some ob)) :
+    togAt (togAt V (a, la)) (b, lb) = (V.set a (some (togOp oa la))).set b (some (togOp ob lb)) := by
+  rw [togAt_eq_set V (a, la) oa ha]
+  apply togAt_eq_set
+  simp only
+  rw [List.getElem?_set_ne hab]
+  exact hb
+
+theorem togAt2_same (V : Slots) (a : Nat) (l1 l2 : Leg) (o : Op) (ha : V[a]? = some (some o)) :
+    togAt (togAt V (a, l1)) (a, l2) = V.set a (some (togOp (togOp o l1) l2)) := by
+  have hl : a < V.length := (List.getElem?_eq_some_iff.mp ha).1
+  rw [togAt_eq_set V (a, l1) o ha]
+  rw [togAt_eq_set _ (a, l2) (togOp o l1) (by simp [hl])]
+  simp
+
+/-- in a periodic string the output of the last op on `v` is the state at `v` -/
+theorem val_out {st : List Bool} {V : Slots} (hc : propagate st V = some st) (pos r : Nat) (o : Op)
+    (hop : V[pos]? = some (some o)) (ok : OpOK o) (hr : r < o.vars.length)
+    (hf : FreeIn V o.vars[r] (pos + 1) V.length) :
+    st[o.vars[r]]? = some (legVal o ⟨r, true⟩) := by
+  obtain ⟨m1, m2, p1, p2, p3⟩ := propagate_at hc pos o hop
+  obtain ⟨hm, rfl⟩ := applyOp_eq_some p2
+  rw [inputsMatch_eq] at hm
+  have hro : r < o.outs.length := by rw [ok.2.1]; exact hr
+  have hri : r < o.ins.length := by rw [ok.1]; exact hr
+  have hlt : o.vars[r] < m1.length := by
+    have := matchL_get m1 o.vars o.ins r hm hr hri
+    exact (List.getElem?_eq_some_iff.mp this).1
+  rw [propagate_get_free _ _ _ _ (free_drop V _ pos hf) p3,
+    writeVars_get m1 o.vars o.outs r ok.2.2 hr hro hlt]
+  simp [legVal, List.getD, List.getElem?_eq_getElem hro]
+
+/-- in a periodic string the input of the first op on `v` is the state at `v` -/
+theorem val_in {st : List Bool} {V : Slots} (hc : propagate st V = some st) (pos r : Nat) (o : Op)
+    (hop : V[pos]? = some (some o)) (ok : OpOK o) (hr : r < o.vars.length)
+    (hf : FreeIn V o.vars[r] 0 pos) :
+    st[o.vars[r]]? = some (legVal o ⟨r, false⟩) := by
+  obtain ⟨m1, m2, p1, p2, p3⟩ := propagate_at hc pos o hop
+  obtain ⟨hm, _⟩ := applyOp_eq_some p2
+  rw [inputsMatch_eq] at hm
+  have hri : r < o.ins.length := by rw [ok.1]; exact hr
+  rw [← propagate_get_free _ _ _ _ (free_take V _ pos hf) p1, matchL_get m1 o.vars o.ins r hm hr hri]
+  simp [legVal, List.getD, List.getElem?_eq_getElem hri]
+
+theorem moveOn_congr (a b : Slots) (h : ∀ v, occV a v = occV b v) (st : List Bool) (pos : Nat)
+    (op : Op) (ex : Leg) : moveOn a st pos op ex = moveOn b st pos op ex := by
+  unfold moveOn nextForVar prevForVar firstForVar lastForVar
+  simp only [h]
+
+/-- **the link lemma**: in a periodic string `V`, toggle the leg `ex` of the op at `pos` and the leg
+`moveOn` says it is linked to, with the state the walk writes when the link crosses p = 0
+(`op'` is the op the walk reads the new value of the exit leg from): still periodic. -/
+theorem link_move {st : List Bool} {V : Slots} (hok : SlotsOK V) (hc : propagate st V = some st)
+    (pos : Nat) (oV : Op) (hop : V[pos]? = some (some oV)) (ex : Leg) (hr : ex.rel < oV.vars.length)
+    (op' : Op) (hv' : op'.vars = oV.vars) (hval : legVal op' ex = !legVal oV ex)
+    (st' : List Bool) (p' r' : Nat) (hm : moveOn V st pos op' ex = (st', some (p', r'))) :
+    propagate st' (togAt (togAt V (pos, ex)) (p', ⟨r', !ex.out⟩)) = some st' := by
+  have okV := hok pos oV hop
+  obtain ⟨r, b⟩ := ex
+  simp only at hr
+  have hvv : op'.vars.getD r 0 = oV.vars[r] := by
+    rw [hv']; simp [List.getD, List.getElem?_eq_getElem hr]
+  have htouch : oV.vars[r] ∈ oV.vars := List.getElem_mem hr
+  cases b with
+  | true =>
+    simp only [moveOn, if_true, hvv] at hm
+    split at hm
+    · -- inner link forward
+      rename_i q hq
+      injection hm with e1 e2
+      subst e1
+      injection e2 with e2
+      subst e2
+      obtain ⟨hlt, ⟨o2, ho2, hi2⟩, hfree⟩ := nextForVar_some hq
+      obtain ⟨hr2, hv2⟩ := indexOfVar_some hi2
+      rw [togAt2_ne V pos p' _ _ oV o2 (by omega) hop ho2]
+      exact link_inner hc pos p' r r' oV o2 hlt hop ho2 okV (hok _ _ ho2) hr hr2 hv2 hfree
+    · -- through the boundary, forward
+      rename_i hq
+      injection hm with e1 e2
+      have hfb := nextForVar_none hq
+      obtain ⟨⟨o2, ho2, hi2⟩, hfa⟩ := firstForVar_some e2
+      obtain ⟨hr2, hv2⟩ := indexOfVar_some hi2
+      have hst : st' = st.modify oV.vars[r] not := by
+        rw [← e1]
+        have h1 := val_out hc pos r oV hop okV hr hfb
+        have h2 : op'.outs.getD r false = !legVal oV ⟨r, true⟩ := by
+          rw [← hval]; simp [legVal]
+        rw [h2]
+        exact set_eq_modify_not _ _ _ h1
+      rw [hst]
+      have hle : p' ≤ pos := by
+        by_contra hcon
+        exact hfa pos oV (Nat.zero_le _) (by omega) hop htouch
+      rcases Nat.lt_or_eq_of_le hle with hlt | heq
+      · rw [togAt_comm, togAt2_ne V p' pos _ _ o2 oV (by omega) ho2 hop]
+        exact link_wrap hc p' pos r r' oV o2 hlt ho2 hop okV (hok _ _ ho2) hr hr2 hv2 hfa hfb
+      · subst heq
+        rw [hop] at ho2
+        injection ho2 with ho2; injection ho2 with ho2; subst ho2
+        have : r' = r := by
+          have := indexOfVar_getElem okV.2.2 r hr
+          rw [hi2] at this; injection this
+        subst this
+        rw [togAt_comm, togAt2_same V p' _ _ oV hop]
+        exact link_self hc p' r' oV hop okV hr hfa hfb
+  | false =>
+    simp only [moveOn, Bool.false_eq_true, if_false, hvv] at hm
+    split at hm
+    · -- inner link backward
+      rename_i q hq
+      injection hm with e1 e2
+      subst e1
+      injection e2 with e2
+      subst e2
+      obtain ⟨hlt, ⟨o1, ho1, hi1⟩, hfree⟩ := prevForVar_some hq
+      obtain ⟨hr1, hv1⟩ := indexOfVar_some hi1
+      rw [togAt_comm, togAt2_ne V p' pos _ _ o1 oV (by omega) ho1 hop]
+      have hfree' : FreeIn V o1.vars[r'] (p' + 1) pos := by rw [hv1]; exact hfree
+      exact link_inner hc p' pos r' r o1 oV hlt ho1 hop (hok _ _ ho1) okV hr1 hr hv1.symm hfree'
+    · -- through the boundary, backward
+      rename_i hq
+      injection hm with e1 e2
+      have hfa := prevForVar_none hq
+      obtain ⟨⟨o1, ho1, hi1⟩, hfb⟩ := lastForVar_some e2
+      obtain ⟨hr1, hv1⟩ := indexOfVar_some hi1
+      have hst : st' = st.modify oV.vars[r] not := by
+        rw [← e1]
+        have h1 := val_in hc pos r oV hop okV hr hfa
+        have h2 : op'.ins.getD r false = !legVal oV ⟨r, false⟩ := by
+          rw [← hval]; simp [legVal]
+        rw [h2]
+        exact set_eq_modify_not _ _ _ h1
+      rw [hst]
+      have hle : pos ≤ p' := by
+        by_contra hcon
+        have hl : pos < V.length := (List.getElem?_eq_some_iff.mp hop).1
+        exact hfb pos oV (by omega) hl hop htouch
+      rcases Nat.lt_or_eq_of_le hle with hlt | heq
+      · rw [togAt2_ne V pos p' _ _ oV o1 (by omega) hop ho1, ← hv1]
+        have hfa' : FreeIn V o1.vars[r'] 0 pos := by rw [hv1]; exact hfa
+        have hfb' : FreeIn V o1.vars[r'] (p' + 1) V.length := by rw [hv1]; exact hfb
+        exact link_wrap hc pos p' r' r o1 oV hlt hop ho1 (hok _ _ ho1) okV hr1 hr hv1.symm hfa' hfb'
+      · subst heq
+        rw [hop] at ho1
+        injection ho1 with ho1; injection ho1 with ho1; subst ho1
+        have : r' = r := by
+          have := indexOfVar_getElem okV.2.2 r hr
+          rw [hi1] at this; injection this
+        subst this
+        rw [togAt2_same V pos _ _ oV hop]
+        exact link_self hc pos r' oV hop okV hr hfa hfb
+
+/-! ### leg values, tag erasure -/
+
+theorem legVal_togOp_self (o : Op) (l : Leg) (hi : l.rel < o.ins.length) (ho : l.rel < o.outs.length) :
+    legVal (togOp o l) l = !legVal o l := by
+  obtain ⟨r, b⟩ := l
+  cases b <;> simp_all [legVal, togOp, flipIO, List.getD]
+
+theorem legVal_togOp_ne (o : Op) (l l' : Leg) (h : l ≠ l') : legVal (togOp o l) l' = legVal o l' := by
+  obtain ⟨r, b⟩ := l
+  obtain ⟨r', b'⟩ := l'
+  have : b = b' → r ≠ r' := by
+    intro e1 e2; exact h (by rw [e1, e2])
+  cases b <;> cases b' <;> simp_all [legVal, togOp, flipIO, List.getD]
+
+def retagOp (o : Op) : Op := { o with tagDiag := false }
+def retag (s : Slots) : Slots := s.map (Option.map retagOp)
+
+theorem applyOp_retag (st : List Bool) (o : Op) : applyOp st (retagOp o) = applyOp st o := rfl
+
+theorem propagate_retag (st : List Bool) (s : Slots) : propagate st (retag s) = propagate st s := by
+  induction s generalizing st with
+  | nil => rfl
+  | cons a t ih =>
+    cases a with
+    | none => simp only [retag, List.map_cons, Option.map_none, propagate]; exact ih st
+    | some o =>
+      simp only [retag, List.map_cons, Option.map_some, propagate, applyOp_retag]
+      cases applyOp st o with
+      | none => rfl
+      | some st' => exact ih st'
+
+theorem retag_getElem? (s : Slots) (j : Nat) : (retag s)[j]? = (s[j]?).map (Option.map retagOp) := by
+  simp [retag]
+
+theorem retagOp_passThrough (op : Op) (a b : Leg) :
+    retagOp (passThrough op a b) = togOp (togOp (retagOp op) a) b := by
+  simp [retagOp, passThrough, Op.withInOut, togOp]
+
+theorem retag_set_passThrough (S : Slots) (pos : Nat) (op : Op) (a b : Leg)
+    (h : S[pos]? = some (some op)) :
+    retag (S.set pos (some (passThrough op a b))) = togAt (togAt (retag S) (pos, a)) (pos, b) := by
+  have h' : (retag S)[pos]? = some (some (retagOp op)) := by rw [retag_getElem?, h]; rfl
+  rw [togAt2_same (retag S) pos a b (retagOp op) h', ← retagOp_passThrough]
+  simp [retag, List.map_set]
+
+theorem occV_retag (s : Slots) (v : Nat) : occV (retag s) v = occV s v := by
+  unfold occV
+  have : (retag s).length = s.length := by simp [retag]
+  rw [this]
+  apply List.filterMap_congr
+  intro p _
+  rw [retag_getElem?]
+  cases s[p]? with
+  | none => rfl
+  | some y =>
+    cases y with
+    | none => rfl
+    | some o => rfl
+
+theorem slotsOK_retag (s : Slots) (h : WFSlots s) : SlotsOK (retag s) := by
+  intro j o ho
+  rw [retag_getElem?] at ho
+  cases hs : s[j]? with
+  | none => rw [hs] at ho; cases ho
+  | some y =>
+    cases y with
+    | none => rw [hs] at ho; cases ho
+    | some o0 =>
+      rw [hs] at ho
+      simp only [Option.map_some, Option.some.injEq] at ho
+      subst ho
+      obtain ⟨h1, h2, h3, _⟩ := h o0 (List.mem_of_getElem? hs)
+      exact ⟨h1, h2, h3⟩
+
+theorem slotsOK_togAt (V : Slots) (x : Nat × Leg) (h : SlotsOK V) : SlotsOK (togAt V x) := by
+  intro j o ho
+  obtain ⟨o0, h0, _, himp⟩ := togAt_some V x j o ho
+  exact himp (h j o0 h0)
+
+/-! ### one vertex visit, by cases -/
+
+/-- the result of one vertex visit, by cases: an error exit (flag raised), or the good path -/
+theorem loopBody_cases (w : Nat → List Bool → List Bool → Rat) (init : Nat × Leg) (pos : Nat)
+    (ent : Leg) (s : LoopSt) :
+    ((loopBody w init pos ent s).2 = none ∧
+      ((loopBody w init pos ent s).1.rs.panicked = true ∨ (loopBody w init pos ent s).1.rs.short = true)) ∨
+    ∃ op ex, s.slots[pos]? = some (some op) ∧ ex.rel < op.vars.length ∧
+      (loopBody w init pos ent s).1.slots = s.slots.set pos (some (passThrough op ent ex)) ∧
+      (((pos, ex) = init ∧ (loopBody w init pos ent s).2 = none ∧
+          (loopBody w init pos ent s).1.state = s.state) ∨
+      ((pos, ex) ≠ init ∧ ∃ st' p' r',
+          moveOn s.slots s.state pos (passThrough op ent ex) ex = (st', some (p', r')) ∧
+          (loopBody w init pos ent s).1.state = st' ∧
+          (((p', (⟨r', !ex.out⟩ : Leg)) = init ∧ (loopBody w init pos ent s).2 = none) ∨
+           ((p', (⟨r', !ex.out⟩ : Leg)) ≠ init ∧
+              (loopBody w init pos ent s).2 = some (p', ⟨r', !ex.out⟩))))) := by
+  unfold loopBody
+  split
+  · rename_i op hop
+    simp only
+    split
+    · rename_i hfl
+      left
+      refine ⟨rfl, ?_⟩
+      simpa using hfl
+    · split
+      · left; exact ⟨rfl, Or.inl rfl⟩
+      · rename_i j hj
+        have hjl := pickIdx_lt hj
+        simp only [exitWeights, List.length_map] at hjl
+        have hleg : (legsOf op.vars.length).getD j default = (legsOf op.vars.length)[j] := by
+          simp [List.getD, List.getElem?_eq_getElem hjl]
+        have hrel : ((legsOf op.vars.length).getD j default).rel < op.vars.length := by
+          rw [hleg]; exact (mem_legsOf _ _).mp (List.getElem_mem hjl)
+        split
+        · rename_i hinit
+          right
+          exact ⟨op, _, hop, hrel, rfl, Or.inl ⟨hinit, rfl, rfl⟩⟩
+        · rename_i hinit
+          split
+          · rename_i st' p' r' hmv
+            right
+            split
+            · rename_i h2
+              exact ⟨op, _, hop, hrel, rfl, Or.inr ⟨hinit, st', p', r', hmv, rfl, Or.inl ⟨h2, rfl⟩⟩⟩
+            · rename_i h2
+              exact ⟨op, _, hop, hrel, rfl, Or.inr ⟨hinit, st', p', r', hmv, rfl, Or.inr ⟨h2, rfl⟩⟩⟩
+          · left; exact ⟨rfl, Or.inl rfl⟩
+  · left; exact ⟨rfl, Or.inl rfl⟩
+
+/-! ### the invariant and the walk -/
+
+/-- **the two-open-ends invariant** at the head of the visit `(pos, ent)` of a loop started at
+`init`: the string with the head leg and the tail leg toggled is periodic for the current state -/
+def Inv (init : Nat × Leg) (pos : Nat) (ent : Leg) (s : LoopSt) : Prop :=
+  WFSlots s.slots ∧
+    propagate s.state (togAt (togAt (retag s.slots) (pos, ent)) init) = some s.state
+
+theorem wf_set_passThrough {slots : Slots} {pos : Nat} {op : Op} (ent ex : Leg) (h : WFSlots slots)
+    (hop : slots[pos]? = some (some op)) : WFSlots (slots.set pos (some (passThrough op ent ex))) := by
+  intro o ho
+  rcases mem_set_some ho with rfl | ho
+  · exact passThrough_WF op ent ex (h op (List.mem_of_getElem? hop))
+  · exact h o ho
+
+/-- **step lemma**: a visit that continues hands the invariant on; a visit that returns without
+raising a flag leaves a periodic string. -/
+theorem loopBody_spec (w : Nat → List Bool → List Bool → Rat) (init : Nat × Leg) (pos : Nat)
+    (ent : Leg) (s : LoopSt) (h : Inv init pos ent s) :
+    (∀ p e, (loopBody w init pos ent s).2 = some (p, e) → Inv init p e (loopBody w init pos ent s).1) ∧
+    ((loopBody w init pos ent s).2 = none → (loopBody w init pos ent s).1.rs.panicked = false →
+      (loopBody w init pos ent s).1.rs.short = false →
+      WFSlots (loopBody w init pos ent s).1.slots ∧
+      propagate (loopBody w init pos ent s).1.state (loopBody w init pos ent s).1.slots
+        = some (loopBody w init pos ent s).1.state) := by
+  obtain ⟨hwf, hc⟩ := h
+  rcases loopBody_cases w init pos ent s with ⟨hn, hfl⟩ | ⟨op, ex, hop, hrel, hslots, hcase⟩
+  · refine ⟨fun p e he => ?_, fun _ h1 h2 => ?_⟩
+    · rw [hn] at he; cases he
+    · rcases hfl with hfl | hfl
+      · rw [h1] at hfl; cases hfl
+      · rw [h2] at hfl; cases hfl
+  · have hwf' := wf_set_passThrough ent ex hwf hop
+    have hre := retag_set_passThrough s.slots pos op ent ex hop
+    rcases hcase with ⟨hinit, hnone, hst⟩ | ⟨hinit, st', p', r', hmv, hst, hfin⟩
+    · -- closed through the tail leg itself
+      refine ⟨fun p e he => ?_, fun _ _ _ => ?_⟩
+      · rw [hnone] at he; cases he
+      · rw [hslots, hst]
+        refine ⟨hwf', ?_⟩
+        rw [← propagate_retag, hre, hinit]
+        exact hc
+    · -- moved along the link of the exit leg
+      have hR : (retag s.slots)[pos]? = some (some (retagOp op)) := by
+        rw [retag_getElem?, hop]; rfl
+      have hokR : SlotsOK (retag s.slots) := slotsOK_retag _ hwf
+      have hok1 : OpOK (togOp (retagOp op) ent) := togOp_OK _ _ (hokR pos _ hR)
+      have hokV : SlotsOK (togAt (togAt (retag s.slots) (pos, ent)) init) :=
+        slotsOK_togAt _ _ (slotsOK_togAt _ _ hokR)
+      -- the op of the virtual string at `pos`
+      have h1 : (togAt (retag s.slots) (pos, ent))[pos]? = some (some (togOp (retagOp op) ent)) := by
+        rw [togAt_getElem?, if_pos rfl, hR]; rfl
+      obtain ⟨oV, hoV, hvars, hlv⟩ : ∃ oV,
+          (togAt (togAt (retag s.slots) (pos, ent)) init)[pos]? = some (some oV) ∧
+          oV.vars = op.vars ∧ legVal oV ex = legVal (togOp (retagOp op) ent) ex := by
+        rw [togAt_getElem?]
+        by_cases hi : init.1 = pos
+        · rw [if_pos hi, h1]
+          refine ⟨_, rfl, rfl, ?_⟩
+          apply legVal_togOp_ne
+          intro e
+          apply hinit
+          rw [← e, ← hi]
+        · rw [if_neg hi]
+          exact ⟨_, h1, rfl, rfl⟩
+      have hval : legVal (passThrough op ent ex) ex = !legVal oV ex := by
+        have : legVal (passThrough op ent ex) ex = legVal (retagOp (passThrough op ent ex)) ex := rfl
+        rw [this, retagOp_passThrough, hlv]
+        apply legVal_togOp_self
+        · rw [hok1.1]; exact hrel
+        · rw [hok1.2.1]; exact hrel
+      have hmv' : moveOn (togAt (togAt (retag s.slots) (pos, ent)) init) s.state pos
+          (passThrough op ent ex) ex = (st', some (p', r')) := by
+        rw [moveOn_congr _ s.slots (fun v => by rw [occV_togAt, occV_togAt, occV_retag])]
+        exact hmv
+      have hlink := link_move hokV hc pos oV hoV ex (by rw [hvars]; exact hrel)
+        (passThrough op ent ex) (by rw [hvars]; exact (passThrough_fields op ent ex).1) hval
+        st' p' r' hmv'
+      rcases hfin with ⟨hhead, hnone⟩ | ⟨hhead, hsome⟩
+      · -- the head met the tail
+        refine ⟨fun p e he => ?_, fun _ _ _ => ?_⟩
+        · rw [hnone] at he; cases he
+        · rw [hslots, hst]
+          refine ⟨hwf', ?_⟩
+          rw [← propagate_retag, hre]
+          rw [hhead, togAt_comm (togAt (retag s.slots) (pos, ent)) init (pos, ex), togAt_togAt] at hlink
+          exact hlink
+      · refine ⟨fun p e he => ?_, fun hn _ _ => ?_⟩
+        · rw [hsome] at he
+          injection he with he
+          injection he with e1 e2
+          subst e1; subst e2
+          refine ⟨by rw [hslots]; exact hwf', ?_⟩
+          rw [hslots, hst, hre,
+            togAt_comm (togAt (togAt (retag s.slots) (pos, ent)) (pos, ex)) _ init,
+            togAt_comm (togAt (retag s.slots) (pos, ent)) (pos, ex) init]
+          exact hlink
+        · rw [hsome] at hn; cases hn
+
+theorem loopIter_spec (w : Nat → List Bool → List Bool → Rat) (init : Nat × Leg) (fuel pos : Nat)
+    (ent : Leg) (s : LoopSt) (h : Inv init pos ent s)
+    (h1 : (loopIter w init fuel pos ent s).rs.panicked = false)
+    (h2 : (loopIter w init fuel pos ent s).rs.short = false) :
+    propagate (loopIter w init fuel pos ent s).state (loopIter w init fuel pos ent s).slots
+      = some (loopIter w init fuel pos ent s).state := by
+  induction fuel generalizing pos ent s with
+  | zero => simp [loopIter] at h2
+  | succ f ih =>
+    obtain ⟨hs, hn⟩ := loopBody_spec w init pos ent s h
+    unfold loopIter at h1 h2 ⊢
+    split at h1
+    · rename_i s' heq
+      rw [heq] at hn
+      simp only [heq] at h2 ⊢
+      exact (hn rfl h1 h2).2
+    · rename_i s' p e heq
+      rw [heq] at hs
+      simp only [heq] at h2 ⊢
+      exact ih p e s' (hs p e rfl) h1 h2
+
+/-- the start: head = tail, the two toggles cancel -/
+theorem inv_start (cfg : Config) (rs : RS) (p : Nat) (leg : Leg) (hwf : WFSlots cfg.slots)
+    (hc : Consistent cfg) : Inv (p, leg) p leg { state := cfg.state, slots := cfg.slots, rs := rs } := by
+  refine ⟨hwf, ?_⟩
+  simp only
+  rw [togAt_togAt, propagate_retag]
+  exact hc
+
+/-- **The loop update keeps world lines periodic**: whenever the update returns without raising
+a flag (no modelled panic, script not exhausted — i.e. the walk closed), the result is
+`Consistent`. -/
+theorem loopUpdate_consistent (w : Nat → List Bool → List Bool → Rat) (cfg : Config) (rs : RS)
+    (hwf : WFSlots cfg.slots) (hc : Consistent cfg)
+    (h1 : (loopUpdate w cfg rs).2.panicked = false) (h2 : (loopUpdate w cfg rs).2.short = false) :
+    Consistent (loopUpdate w cfg rs).1 := by
+  unfold loopUpdate at h1 h2 ⊢
+  split
+  · exact hc
+  · rename_i hn
+    rw [if_neg hn] at h1 h2
+    split
+    · exact hc
+    · rename_i p leg rs' heq
+      simp only [heq] at h1 h2
+      exact loopIter_spec w (p, leg) _ p leg _ (inv_start cfg rs' p leg hwf hc) h1 h2
 
 end Qmc.LoopC
